@@ -213,6 +213,9 @@ Q_SHAPES = {
     # two arcs of different segments aiming at the SAME control point position (distinct objects)
     "pinch": ("ctrl", [[(0.0, 0.0), (2.0, 2.0), (4.0, 0.0)], [(4.0, 0.0), (4.0, 4.0)], [(4.0, 4.0), (2.0, 2.0), (0.0, 4.0)], [(0.0, 4.0), (0.0, 0.0)]]),
     "ipinch": ("ctrl", [[(0, 0), (2, 2), (4, 0)], [(4, 0), (4, 4)], [(4, 4), (2, 2), (0, 4)], [(0, 4), (0, 0)]]),
+    # a straight side written as a quadratic / cubic segment (degree-elevated line) between arcs
+    "elev": ("ctrl", [[(0.0, 0.0), (1.0, 0.0), (2.0, 1.0)], [(2.0, 1.0), (2.0, 3.0), (0.0, 2.0)], [(0.0, 2.0), (-1.0, 1.0), (-1.0, 0.0)], [(-1.0, 0.0), (-0.5, 0.0), (0.0, 0.0)]]),
+    "elev3": ("ctrl", [[(0.0, 0.0), (1.0, 0.0), (2.0, 0.0), (3.0, 0.0)], [(3.0, 0.0), (4.0, 1.0), (4.0, 2.0), (3.0, 3.0)], [(3.0, 3.0), (2.0, 3.0), (1.0, 3.0), (0.0, 3.0)], [(0.0, 3.0), (-1.0, 2.0), (-1.0, 1.0), (0.0, 0.0)]]),
     # mixed degrees in generic position (nothing on an axis, nothing symmetric about the origin)
     "mixg": (
         "ctrl",
